@@ -595,6 +595,9 @@ class C17:
             ops += [f"#b{i} " + L(l, 3, 1) for i, l in enumerate(b)]
             yield ("two-parsers", ops)
 
+    def extra_run(self, rep, tier, cfgs):
+        C20().tool_pass(rep, "C17")
+
     @staticmethod
     def result_only(ans):
         return ans.rsplit(" st=", 1)[0]
@@ -1154,6 +1157,64 @@ class C20:
                         out.append(data)
         return out
 
+    def aligned_streams(self, rng, sizes=(512, 1024, 4096, 8192, 16384, 32768, 65536)):
+        """Lines longer than a reader's block, with the places that matter put EXACTLY at a block boundary B: sentence
+        text starting at offset B of a garbage line (inside an open group: a forged fragment of that very group), of a
+        line's ignored tail and behind a tag block of B bytes; the two checksum digits straddling offset B (the body
+        folding to the value of the first digit alone, the transmitted pair saying something else); a line of exactly
+        B bytes.  A line is what stands between two line feeds, however long."""
+        out = []
+        p_, f_ = gen.valid_message_payload(rng, 1)
+        good = ais.sentence(p_, fill=f_)
+        q_, g_ = gen.valid_message_payload(rng, 5)
+        cut = len(q_) // 2
+        f1 = ais.sentence(q_[:cut], nf=2, fn=1, mid=1, fill=0)
+        f2 = ais.sentence(q_[cut:], nf=2, fn=2, mid=1, fill=g_)
+        forged = ais.sentence(gen.valid_message_payload(rng, 5)[0][:cut], nf=2, fn=1, mid=1, fill=0, channel=b"B")
+        for B in sizes:
+            for shift in (0, 1):
+                junk = rand_bytes(rng, B + shift, exclude=b"\n!$\\")
+                # a forged first fragment of the open group at offset B of a rejected line
+                out.append(f1 + b"\n" + junk + forged + b"\n" + f2 + b"\n" + good + b"\n")
+                out.append(good + b"\n" + junk + good + b"\n" + good + b"\n")
+            # sentence text at offset B of the ignored tail of a valid line, and a valid line behind a tag block of B bytes
+            tail = b" " + rand_bytes(rng, B - len(good) - 1, exclude=b"\n") if B > len(good) + 1 else b""
+            out.append(good + tail + forged + b"\n" + f1 + b"\n" + f2 + b"\n")
+            tb = rand_bytes(rng, B - 2, exclude=b"\n\\")
+            out.append(ais.sentence(p_, fill=f_, tagblock=tb) + b"\n" + good + b"\n")
+            # the checksum digits on both sides of offset B (the first digit alone is the fold of the body)
+            for star_at in (B - 2, B - 1, B):
+                pre = b"!AIVDM,1,1,,"
+                post = b"," + p_ + b"," + str(f_).encode()
+                nfill = star_at - len(pre) - len(post)
+                if nfill < 2:
+                    continue
+                ch = bytearray(b"A" * nfill)
+                x = ais.xor_all(pre[1:] + bytes(ch[:-1]) + post)
+                for d1 in range(16):
+                    c = x ^ d1
+                    if c not in (44, 42, 10, 13, 92) and 33 <= c < 127:
+                        ch[-1] = c
+                        break
+                else:
+                    continue
+                body = pre[1:] + bytes(ch) + post
+                assert ais.xor_all(body) == d1
+                d2 = rng.choice([v for v in range(16) if d1 * 16 + v != d1])
+                out.append(good + b"\n!" + body + b"*%X%X" % (d1, d2) + b"\n" + good + b"\n")
+                out.append(b"!" + body + b"*%02X" % d1 + b"\n")
+            out.append(b"x" * B + b"\n" + good + b"\n")
+            out.append(good + b" " * (B - len(good)) + b"\n" + good + b"\n")
+        return out
+
+    def tool_pass(self, rep, pid, seed=9):
+        """The command-line tool is the crate's own user of the parser: the same rule holds for the lines it reads."""
+        import random
+        okb, out, binary = core.cli_build()
+        if not okb:
+            return
+        self.judge_streams(rep, binary, self.aligned_streams(random.Random(seed)), pid)
+
     @staticmethod
     def same_records(got, exp, is_out):
         """The statement fixes what a record is about (stdout: the decoded message of that line; stderr: that line was
@@ -1219,6 +1280,7 @@ class C20:
         n = 60 if tier == "quick" else 600
         streams = [b"", b"\n", b"\n\n", b"\xff\n", b"!AIVDM,1,1,,A,15M,0*00", b"\r\n"]
         streams += self.block_streams(rng)
+        streams += self.aligned_streams(rng)
         streams += self.special_streams(rng)
         streams += [self.stream(rng) for _ in range(n)]
         self.judge_streams(rep, binary, streams, "C20")
@@ -1239,7 +1301,7 @@ class C20:
             ops.append("S " + hexs(data))
             impl = core.run_impl("std", ops)
             model = core.run_model("std", ops)
-            exp_out, exp_err = [], []
+            exp_out, exp_err, exp_all = [], [], []
             tie_ok = True
             # the model's record splitting, std's BufRead::split and this script's must agree
             want_split = "ok %d %s" % (len(recs), ",".join(hexs(r) for r in recs))
@@ -1256,8 +1318,10 @@ class C20:
                     ctx_tie = {"line": r[:80].hex(), "library": la[:300], "model": lm[:300]}
                 if ra.startswith("O "):
                     exp_out.append(ra[2:])
+                    exp_all.append(ra[2:])
                 elif ra.startswith("E "):
                     exp_err.append(ra[2:])
+                    exp_all.append(ra[2:])
             got_out = p.stdout.decode("utf-8", "replace").split("\n")
             got_err = p.stderr.decode("utf-8", "replace").split("\n")
             if got_out and got_out[-1] == "":
@@ -1277,6 +1341,22 @@ class C20:
                 ctx.update(ctx_tie)
                 rep.violation(f"{pid}: model and library disagree on a line of the stream (the records the tool prints are "
                               "the library's, so they are not the specified ones)", ctx)
+            if pid == "C20" and exp_out and exp_err and p.returncode == 0 and len(data) < 200000:
+                # both streams into ONE sink (`aisparser < feed > log 2>&1`, a terminal): a record is written when its
+                # line has been handled, so the log shows the records of all lines in input order
+                try:
+                    p2 = subprocess.run([binary], input=data, stdout=subprocess.PIPE, stderr=subprocess.STDOUT, timeout=60)
+                    got_all = p2.stdout.decode("utf-8", "replace").split("\n")
+                    if got_all and got_all[-1] == "":
+                        got_all.pop()
+                    rep.count("one-sink")
+                    if got_all != exp_all and not self.same_records(got_all, exp_all, False):
+                        ctx2 = dict(ctx)
+                        ctx2.update({"one_sink": got_all[:30], "expected_one_sink": exp_all[:30]})
+                        rep.violation(f"{pid}: with standard output and standard error going to one sink the records do not appear in input order "
+                                      "(records are held back on one of the streams)", ctx2)
+                except subprocess.TimeoutExpired:
+                    rep.violation(f"{pid}: aisparser did not reach end of input", {"stream_hex": data.hex()})
             if exp_out and exp_err:
                 rep.nontrivial.add(data)
             if len(rep.samples) < 3 and exp_out and exp_err:
